@@ -178,7 +178,11 @@ class Interp:
                     if st_['k'] == 'assign' and st_['place']['local'] == local and not st_['place']['proj']:
                         rv = st_['rv']
                         if rv['k'] in ('ref', 'rawptr'):
-                            return rv['place']
+                            pl = rv['place']
+                            if len(pl['proj']) == 1 and pl['proj'][0]['k'] == 'deref' and pl['local'] != local:
+                                inner = ref_origin(pl['local'])   # reborrow &mut *p
+                                return inner if inner is not None else pl
+                            return pl
                         if rv['k'] == 'use' and rv['op']['k'] in ('copy', 'move') and not rv['op']['place']['proj']:
                             return ref_origin(rv['op']['place']['local']) if rv['op']['place']['local'] != local else None
             return None
@@ -199,17 +203,33 @@ class Interp:
                     fields |= f2
                     unknown = unknown or u2
                 elif any(n.startswith(m) for m in self.MUTATING_EXTERNALS):
-                    a0 = t['args'][0] if t['args'] else None
-                    origin = None
-                    if a0 and a0['k'] in ('copy', 'move') and not a0['place']['proj']:
-                        origin = ref_origin(a0['place']['local'])
-                    if origin is not None and any(e['k'] == 'field' and e['owner'] for e in origin['proj']):
-                        last = [(e['owner'], e['name']) for e in origin['proj'] if e['k'] == 'field' and e['owner']][-1]
-                        fields.add(last)
-                    elif origin is not None and not any(e['k'] == 'deref' for e in origin['proj']):
-                        pass  # a local of this function
-                    else:
-                        unknown = True
+                    nargs = 2 if n.startswith('std::mem::swap') else 1
+                    for a0 in t['args'][:nargs]:
+                        origin = None
+                        if a0 and a0['k'] in ('copy', 'move') and not a0['place']['proj']:
+                            origin = ref_origin(a0['place']['local'])
+                        if origin is not None and any(e['k'] == 'field' and e['owner'] for e in origin['proj']):
+                            last = [(e['owner'], e['name']) for e in origin['proj'] if e['k'] == 'field' and e['owner']][-1]
+                            fields.add(last)
+                        elif origin is not None and not any(e['k'] == 'deref' for e in origin['proj']):
+                            pass  # a local of this function
+                        else:
+                            # unknown pointee: by type, a `&mut T` can only reach struct fields whose type contains T
+                            ty = ''
+                            if a0 and a0['k'] in ('copy', 'move') and not a0['place']['proj']:
+                                ty = fn['locals'][a0['place']['local']]['ty']
+                            if ty.startswith('&mut '):
+                                pointee = ty[5:]
+                                hit = False
+                                for aname, adt in self.adts.items():
+                                    if adt['kind'] != 'struct':
+                                        continue
+                                    for f_ in adt['fields']:
+                                        if pointee in f_['ty']:
+                                            fields.add((aname, f_['name']))
+                                            hit = True
+                            else:
+                                unknown = True
                 elif not n:
                     unknown = True   # indirect call
         res = (frozenset(fields), unknown)
@@ -311,6 +331,11 @@ class Interp:
             for s in blk['stmts']:
                 if s['k'] == 'assign':
                     places.append(s['place'])
+                    rv = s['rv']
+                    # a local whose address is taken mutably inside the loop may be written through that reference
+                    if rv['k'] in ('ref', 'rawptr') and (rv['k'] == 'rawptr' or rv.get('mut')) and \
+                            not any(e['k'] == 'deref' for e in rv['place']['proj']):
+                        places.append({'local': rv['place']['local'], 'proj': []})
             t = blk['term']
             if t['k'] == 'call':
                 places.append(t['dest'])
